@@ -6,15 +6,17 @@ reply    fsz=<filesz_actual> <r,r,..> high=<blocks_highest> nread=<blocks_read.l
          r = <len>:<fnv1a-64>[!] | done | err | panic (sequence stops after panic)
 
 For gz / bz2 the chunk script is empty (full reads): the answer is chunking independent
-(`S4V.Props.StreamSpec.assemble_eq`). For lz4 the answer as coded depends on it; the script is
-computed from `<segs>` — the decompressed lengths of the frame's blocks, which is where
-lz4_flex's `FrameDecoder::read` returns short.
+(`S4V.Props.StreamSpec.assemble_eq`). For lz4 the script is computed from `<segs>` — the
+decompressed lengths of the frame's blocks, which is where lz4_flex's `FrameDecoder::read` returns
+short — for the reads that `read_block_FileLz4` makes according to the generated `LZ4_FILL_LOOP`:
+with the fill loop the answer is chunking independent too (`assemble_eq_lz4`); with the single read
+(the source before the repair) it is not, and the script is what decides the predicted bytes.
 -/
 import S4V.Model.Wire
 import S4V.Model.Stream
 
 namespace S4V.Drv.Stream
-open S4V.Model S4V.Model.Wire S4V.Model.Stream S4V.Gen.Blocks
+open S4V.Model S4V.Model.Wire S4V.Model.Stream S4V.Gen.Blocks S4V.Gen.Stream
 
 def fnv1a (b : List UInt8) : UInt64 :=
   b.foldl (fun h x => (h ^^^ x.toUInt64) * 0x100000001b3) 0xcbf29ce484222325
@@ -31,17 +33,21 @@ def parseKind : String → Option Kind
 def parseList (s : String) : Option (List Nat) :=
   if s = "-" then some [] else (s.splitOn ",").mapM (·.toNat?)
 
-/-- sizes lz4_flex returns for the one `read` per block when blocks `0, 1, …` are decoded in
-order: `min need (what is left of the current frame block)` -/
-def lz4Script (bs fsz : Nat) : Nat → Nat → List Nat → List Nat
-  | 0, _, _ => []
-  | n + 1, bo, segs =>
+/-- sizes lz4_flex returns for the `read` calls made while blocks `0, 1, …` are decoded in order:
+each read returns `min (what the block still lacks) (what is left of the current frame block)`.
+`fillLoop`: a short read is followed by another read for the same block (`got` bytes already in
+it); otherwise there is one read per block. -/
+def lz4Script (fillLoop : Bool) (bs fsz : Nat) : Nat → Nat → Nat → List Nat → List Nat
+  | 0, _, _, _ => []
+  | n + 1, bo, got, segs =>
     match segs with
     | [] => []
     | s :: rest =>
-      let need := blockSzAtBlockOffset bo (blockOffsetLast fsz bs) bs fsz
+      let need := blockSzAtBlockOffset bo (blockOffsetLast fsz bs) bs fsz - got
       let c := min need s
-      c :: lz4Script bs fsz n (bo + 1) (if s - c = 0 then rest else (s - c) :: rest)
+      let segs' := if s - c = 0 then rest else (s - c) :: rest
+      if fillLoop && decide (c < need) then c :: lz4Script fillLoop bs fsz n bo (got + c) segs'
+      else c :: lz4Script fillLoop bs fsz n (bo + 1) 0 segs'
 
 def showRes (d : List UInt8) (bs : Nat) (k : Nat) : Res → String
   | .found b => s!"{b.length}:{hex16 (fnv1a b)}{if b = Lines.blockAt d bs k then "" else "!"}"
@@ -59,7 +65,7 @@ def stepAsm : List String → String
     match parseKind kind, bs.toNat?, unhex h, parseList order, parseList segs with
     | some kind, some bs, some d, some order, some segs =>
       if bs = 0 then "bad-op" else
-      let cs := if kind = .lz4 then lz4Script bs d.length (d.length / bs + 2) 0 segs else []
+      let cs := if kind = .lz4 then lz4Script LZ4_FILL_LOOP bs d.length (d.length / bs + 2 + segs.length) 0 0 segs else []
       let r0 := Rd.new kind bs d cs []
       let p := readSeq r0 order
       let rs := cutAtPanic p.1
